@@ -88,14 +88,23 @@ impl Reporter {
     }
 
     pub fn is_known(&self, key: &str) -> bool {
-        self.known.iter().any(|k| k.status == "known" && k.property == self.property && k.key == key)
+        self.known_entry(key).is_some()
+    }
+
+    /// a known entry matches exactly, or by prefix when its key ends in '*'
+    fn known_entry(&self, key: &str) -> Option<&KnownEntry> {
+        self.known.iter().find(|k| {
+            k.status == "known"
+                && k.property == self.property
+                && (k.key == key || (k.key.ends_with('*') && key.starts_with(&k.key[..k.key.len() - 1])))
+        })
     }
 
     /// Report a violation with a classification key. Returns true if it is a *new* violation.
     pub fn violation(&self, key: &str, desc: &str, replay: Value) -> bool {
         let mut st = self.state.lock().unwrap();
-        if self.is_known(key) {
-            *st.known_hits.entry(key.to_string()).or_insert(0) += 1;
+        if let Some(e) = self.known_entry(key) {
+            *st.known_hits.entry(e.key.clone()).or_insert(0) += 1;
             false
         } else {
             st.violation_count += 1;
